@@ -26,4 +26,26 @@ theorem gen_every_exception_punts :
 theorem gen_progress : ProgressOnFailure PuntSites.syncOneEntry :=
   progressOnFailure_of_all _ (by decide)
 
+/-- the generated `prioritize`-site tables are exactly the audited ones -/
+theorem gen_prio_sites_eq_audited :
+    PuntSites.prioChangePath = auditedPrioChangePath ∧
+    PuntSites.prioChangeOid = auditedPrioChangeOid ∧
+    PuntSites.prioUpdate = auditedPrioUpdate ∧
+    PuntSites.prioUpdateEntry = auditedPrioUpdateEntry ∧
+    PuntSites.prioUpdateKids = auditedPrioUpdateKids ∧
+    PuntSites.prioUpdateKidsOf = auditedPrioUpdateKidsOf ∧
+    PuntSites.prioGetLatest = auditedPrioGetLatest ∧
+    PuntSites.prioSplit = auditedPrioSplit ∧
+    PuntSites.prioSetItem = auditedPrioSetItem ∧
+    PuntSites.prioPunt = auditedPrioPunt ∧
+    PuntSites.prioFinished = auditedPrioFinished := by decide +kernel
+
+/-- in `_change_path` the priority refresh is reached on every path that changes the path: the only `return` before the
+    `prioritize(` call is the one for an unchanged path, the call and the write are guarded by `if path:` only, and the
+    kids are updated (each through `_change_path` again) before it -/
+theorem gen_change_path_always_reprioritises :
+    returnsBeforePrioritize PuntSites.prioChangePath = [["prior_path == path"]] ∧
+    (PuntSites.prioChangePath.filter (fun i => i.kind == "prioritize")).map (·.guards) = [["path"]] ∧
+    (PuntSites.prioUpdateKidsOf.filter (fun i => i.kind == "continue")).map (·.guards.length) = [3] := by decide +kernel
+
 end CS.SchedSites
